@@ -44,8 +44,11 @@ def expected_order(insertion):
 class ModeSystem(explore.System):
     name = 'dict_insertion_ordered'
 
-    def __init__(self, max_nesting, exit_kinds=('exit', 'raise'), observe_event=False):
+    def __init__(self, max_nesting, exit_kinds=('exit', 'raise'), observe_event=False, precreate=False):
         self.max_nesting = max_nesting
+        # precreate: every manager object of a history is created before its first event (creation must not capture state)
+        self.precreate = precreate
+        self.pre = None
         self.exit_kinds = exit_kinds  # 'exit' normal, 'raise' Exception, 'raise-base' BaseException-only, 'close'
         self.observe_event = observe_event  # observation in mid-history as an event (it must be side-effect free)
 
@@ -86,8 +89,10 @@ class ModeSystem(explore.System):
         if ev[0] == 'enter':
             _, mode, ns = ev
 
+            cm = self.pre.pop(0) if self.pre is not None else None
+
             def holder():
-                with optree.dict_insertion_ordered(mode, namespace=GLOBAL if ns == '' else ns):
+                with (cm if cm is not None else optree.dict_insertion_ordered(mode, namespace=GLOBAL if ns == '' else ns)):
                     yield 'inside'
                 yield 'after'
 
@@ -181,6 +186,10 @@ class ModeSystem(explore.System):
     def execute(self, history, ev, src, dst, expected):
         problems = []
         cms = []
+        self.pre = None
+        if self.precreate:
+            self.pre = [optree.dict_insertion_ordered(e[1], namespace=GLOBAL if e[2] == '' else e[2])
+                        for e in (*history, ev) if e[0] == 'enter']
         try:
             for h in history:
                 self._apply(cms, h)
@@ -216,12 +225,14 @@ class ModeSystem(explore.System):
 def run_shard(ctx):
     nesting, depth, hlen = (3, 6, 6) if ctx.tier == 'quick' else (4, 8, 8)
     explore.bfs(ctx, ModeSystem(nesting, exit_kinds=('exit', 'raise', 'raise-base', 'close')), depth, label=f'bfs-nest{nesting}')
+    explore.bfs(ctx, ModeSystem(nesting, precreate=True), depth, label=f'bfs-precreated-nest{nesting}')
     explore.all_histories(ctx, ModeSystem(3, observe_event=True), hlen, label=f'all-histories-len{hlen}')
 
 
 def replay(case, ctx):
     c = case['case']
-    sysm = ModeSystem(8, exit_kinds=('exit', 'raise', 'raise-base', 'close'), observe_event=True)
+    sysm = ModeSystem(8, exit_kinds=('exit', 'raise', 'raise-base', 'close'), observe_event=True,
+                      precreate='precreated' in c.get('label', ''))
     state = sysm.initial()
     hist = [tuple(e) for e in c['history']]
     for h in hist:
